@@ -364,13 +364,27 @@ def run_rollup_scenario(sc):
                     with open(d / fn, "rb") as fh:
                         files.append({"name": fn, "rows": sorted([0, zlib.crc32(line) & 0x3FFFFFFF, 0, 1] for line in fh)})
             return files
-        if sc["earlier"]:
+        if sc["spell"] == "fmt_switch":
+            # the earlier rollup worked on the same collections held as PARQUET files (converted here); the collections were then
+            # replaced by their text files; the tool's own earlier Parquet outputs stay (RollupTool.tla: RefusalNeverByLeftovers, finding F-09c)
+            import pandas as pd
+            names = sorted(os.listdir(out))
+            for fn in names:
+                pd.read_csv(out / fn, sep="\t").to_parquet(out / (fn + ".parquet"), index=False)
+                os.rename(out / fn, wd / ("keep_" + fn))
+            roll(out, out)
+            for fn in names:
+                os.unlink(out / (fn + ".parquet"))
+                os.rename(wd / ("keep_" + fn), out / fn)
+        elif sc["earlier"]:
             roll(out, out)                              # the earlier rollup: collections a, b, c
         for fn in os.listdir(out):
             if fn.startswith("c."):
                 os.unlink(out / fn)                     # collection c is withdrawn
         os.chdir(wd)
-        if sc["spell"] == "rel_abs":
+        if sc["spell"] == "fmt_switch":
+            raised = roll(out, out)
+        elif sc["spell"] == "rel_abs":
             raised = roll(Path("out"), out.resolve())
         else:
             raised = roll(out, out)
@@ -481,6 +495,7 @@ def run(ctx):
     for p in psc:
         ctx.count(("proteins", p["seed"], str(p["earlier"]), p["last"]))
     rsc = [{"seed": int(ctx.seed * 10 + 500 + j), "spell": ["rel_abs", "same"][j % 2], "earlier": j % 3 != 2} for j in range(6 if ctx.quick else 40)]
+    rsc += [{"seed": int(ctx.seed * 10 + 900 + j), "spell": "fmt_switch", "earlier": True} for j in range(2 if ctx.quick else 8)]
     rres = pmap(lambda i: run_rollup_scenario(rsc[i]), len(rsc), chunk=1)
     for r_ in rsc:
         ctx.count(("rolluptool", r_["seed"], r_["spell"], r_["earlier"]))
